@@ -15,7 +15,7 @@ on; "IndInit has no interesting state").  The proofs are about the DESIGN (the a
 in the number of steps, for the sizes written in the IndInit / ConstInit operators of the modules.
 
 extend(o, tier, pid) appends one record per obligation to o.extra["inductive"]:
-    {"module", "obligation": "init"|"step"|"implies", "invariant", "cinit", "expect": "proved"|"failed",
+    {"module", "obligation": "init"|"step"|"implies", "invariant", "init", "cinit", "expect": "proved"|"failed",
      "result": "proved"|"failed"|"timeout", "seconds"}
 A timeout is recorded, never fatal.  An obligation whose result contradicts its expectation (a proved
 obligation now FAILS with a counterexample; a vacuity guard that no longer fails) or a run in which
@@ -38,7 +38,7 @@ from common import Scratch
 
 APALACHE = "apalache-mc"
 SPEC = common.SPEC / "apalache"
-TIMEOUT = int(os.environ.get("VERIF_APALACHE_TIMEOUT", "900"))
+TIMEOUT = int(os.environ.get("VERIF_APALACHE_TIMEOUT", "1200"))
 PARALLEL = int(os.environ.get("VERIF_APALACHE_PARALLEL", "4"))
 
 
@@ -87,6 +87,8 @@ PLAN["C20"] += [
     ob(_WL, "init", "IndInv", init="Init", length=0, cinit="ConstInit"),
     ob(_WL, "step", "IndInv", init="IndInit", length=1, cinit="ConstInit",
        what="lock / transaction / journal-mode core of Workers.tla, <= 4 workers + the creating context, any <= 5 files"),
+    ob(_WL, "step", "IndInv", init="IndInitBig", length=1, cinit="ConstInitBig",
+       what="<= 6 workers + the creating context, any <= 8 files / grants"),
 ] + [ob(_WL, "implies", inv, init="IndInit", length=0, cinit="ConstInit") for inv in _WLP] + [
     ob(_WL, "step", "IndInv", init="IndInit", length=1, cinit=c, expect="failed", what="vacuity guard: deviation " + d)
     for c, d in (("ConstInitBootSnap", "BootstrapUnderSnapshot"), ("ConstInitCommitSkipped", "CommitSkippedWhenUnchanged"),
@@ -94,6 +96,28 @@ PLAN["C20"] += [
 ] + [
     ob(_WL, "implies", "NoInterestingState", init="IndInit", length=0, cinit="ConstInit", expect="failed",
        what="vacuity guard: IndInit admits a writer inside its critical section beside a reader and an idle context"),
+]
+_AN = "AnalyzeInd"
+PLAN["C17"] = [
+    ob(_AN, "init", "IndInv", init="Init", length=0, cinit="ConstInit"),
+    ob(_AN, "step", "IndInv", init="IndInit", length=1, cinit="ConstInit",
+       what="classifier pass + worklist of analyze_templates over ANY inclusion relation of <= 8 edges on <= 5 templates, "
+            "any flagged / earlier-marked sets, any order of pages and worklist"),
+    ob(_AN, "step", "IndInv", init="IndInit", length=1, cinit="ConstInitBig", what="<= 14 edges on <= 8 templates"),
+    ob(_AN, "implies", "NeverOvermarks", init="IndInit", length=0, cinit="ConstInit",
+       what="marked lies inside every set that contains flagged + earlier marks and is closed under includers"),
+    ob(_AN, "implies", "KeepsEarlierMarks", init="IndInit", length=0, cinit="ConstInit"),
+    ob(_AN, "implies", "ResultIsClosed", init="IndInit", length=0, cinit="ConstInit",
+       what="empty worklist: marked contains flagged + earlier marks and is closed under includers, hence (with NeverOvermarks) the least such set"),
+    ob(_AN, "init", "IndInvQ", init="Init", length=0, cinit="ConstInitSmall"),
+    ob(_AN, "step", "IndInvQ", init="IndInitQ", length=1, cinit="ConstInitSmall",
+       what="the invariant with the quantification over ALL closed subsets inside (<= 5 templates, <= 8 edges)"),
+    ob(_AN, "implies", "ResultIsLeastClosure", init="IndInitQ", length=0, cinit="ConstInitSmall",
+       what="empty worklist: marked = the least closed set (Analyze!LfpR of flagged + earlier marks), stated directly"),
+    ob(_AN, "step", "IndInv", init="IndInit", length=1, cinit="ConstInitDev", expect="failed",
+       what="vacuity guard: deviation MarkedNotReseeded (earlier marks are no propagation sources)"),
+    ob(_AN, "implies", "NoInterestingState", init="IndInit", length=0, cinit="ConstInit", expect="failed",
+       what="vacuity guard: IndInit admits a state in the middle of a propagation with work left"),
 ]
 
 
@@ -117,7 +141,7 @@ def run_one(o: dict, timeout: int | None = None) -> dict:
         cmd.append(str(work / (o["module"] + ".tla")))
         env = dict(os.environ)
         env["TMPDIR"] = str(sc)
-        env.setdefault("JVM_ARGS", "-Xmx8g")
+        env.setdefault("JVM_ARGS", "-Xmx4g")
         try:
             p = subprocess.run(cmd, cwd=str(sc), env=env, capture_output=True, text=True, timeout=timeout)
             out = p.stdout + p.stderr
@@ -127,7 +151,7 @@ def run_one(o: dict, timeout: int | None = None) -> dict:
                     sys.stderr.write(f"--- {o['module']} {o['obligation']} {o['invariant']} {o.get('cinit')}\n" + t[t.find("State0 =="):][:6000] + "\n")
         except subprocess.TimeoutExpired:
             out = None
-    rec = {k: o[k] for k in ("module", "obligation", "invariant", "cinit", "expect") if o.get(k) is not None}
+    rec = {k: o[k] for k in ("module", "obligation", "invariant", "init", "cinit", "expect") if o.get(k) is not None}
     if o.get("deps"):
         rec["instances"] = o["deps"]
     if o.get("what"):
